@@ -732,6 +732,13 @@ func (ctx Ctx) copyExpr(n ast.Node, dst ast.Expr, src ast.Expr) coq.Expr {
 }
 
 func (ctx Ctx) callExpr(s *ast.CallExpr) coq.Expr {
+	if len(s.Args) == 1 {
+		if _, ok := ctx.typeOf(s.Args[0]).(*types.Tuple); ok {
+			// f(g()) passes g's results as separate arguments
+			ctx.unsupported(s, "call whose arguments are the results of a multiple-valued call")
+			return nil
+		}
+	}
 	if ctx.isBuiltinIdent(s.Fun, "make") {
 		return ctx.makeExpr(s.Args)
 	}
